@@ -128,10 +128,19 @@ def run_property(prop, tier, seed, rebaseline=False, only_unit=None):
             k = re.sub(r"impl&%\d+::", "impl::", o["fn"])
             c[k] = c.get(k, 0) + 1
         return c
+    def trait_impls(u):
+        # trait-impl blocks the unit takes methods from -> the methods each block defines in the working tree
+        out = {}
+        for f in getattr(u, "fns", []) or []:
+            if f.get("siblings") is not None and re.search(r":: impl [^:]* for ", f.get("parent", "")):
+                out[f["parent"]] = f["siblings"]
+        return out
     if rebaseline:
         for u in results:
             if u.meta.get("static") and u.status == "ok":
                 baseline[u.name] = short_counts([o for o in u.obligations if o["ok"]])
+                if not u.meta.get("kani"):
+                    baseline.setdefault("__trait_impls__", {})[u.name] = trait_impls(u)
         os.makedirs(os.path.dirname(BASELINE_PATH), exist_ok=True)
         json.dump(baseline, open(BASELINE_PATH, "w"), indent=1, sort_keys=True)
     known = known_entries(prop)
@@ -178,6 +187,14 @@ def run_property(prop, tier, seed, rebaseline=False, only_unit=None):
             if gone and u.status != "undecided" and not any(not o["ok"] for o in u.obligations):
                 undecided.append((u.name, f"baseline obligations no longer generated: {gone}"))
                 continue
+            # a trait impl that GAINED a method overrides a default the verified model still uses: the model no longer runs the same code
+            b_impls = baseline.get("__trait_impls__", {}).get(u.name)
+            if b_impls is not None and u.status == "ok":
+                gained = {par: sorted(set(now) - set(b_impls[par])) for par, now in trait_impls(u).items() if par in b_impls and set(now) - set(b_impls[par])}
+                if gained:
+                    undecided.append((u.name, "trait impl gained method(s) that are not under contract (the verified model would still use the trait default): "
+                                      + "; ".join(f"{par.split(' :: ', 1)[-1]} + {ms}" for par, ms in gained.items())))
+                    continue
         cls = reg.get("classes")
         xt = reg.get("exclude_text")
         it = reg.get("include_text")
